@@ -147,7 +147,7 @@ def r_check_guards(rep, prog):
 def classify_guard(cond, err_polarity, tree_order, b, prog):
     """Returns (kind, ok|None, detail). err_polarity: value of cond on the edge to the error."""
     mentions_frame = T.mentions_param(cond, "frame")
-    mentions_order = T.mentions_field(cond, "order")
+    mentions_order = T.mentions_field(cond, "order") or T.mentions_call(cond, "llfree::Request::frames")
     mentions_class = T.mentions_field(cond, "class") and T.mentions_call(cond, "llfree::local::Locals::class_locals")
     cmp_ = lib.normalize_cmp(cond) if cond[0] == "bin" else None
     if mentions_class:
